@@ -604,6 +604,7 @@ package rsm
 // the stream validator accepts only if every complete block it has seen matched its checksum
 //@ func (v *v2validator) validateMagicSize [C14]
 //@ trusted compares the magic number and the recorded payload size of the tail
+//@ ensures result == ufb("tailok", ptr(tail), v.total)
 // every byte received so far is either covered by a validated block or still buffered
 //@ func (v *v2validator) AddChunk [C14 C15]
 //@ noframe
@@ -620,6 +621,10 @@ package rsm
 //@ requires !gBlockBad && v.total == gCovered + len(v.block)
 //@ modifies gBlockBad, gCovered
 //@ ensures result ==> !gBlockBad && v.total == gCovered + tailSize
+// ... and it accepts exactly what the writer produces: whenever at least the tail is buffered, the
+// tail's magic number and recorded size are right and no block fails its checksum, the stream is
+// accepted -- in particular the stream of an empty payload, which is nothing but header and tail
+//@ ensures len(v.block) >= tailSize && ufb("tailok", ptr(v.block) + len(v.block) - tailSize, v.total) && !gBlockBad ==> result
 //@ loop 1 invariant !gBlockBad && len(block) >= 0 && v.total == gCovered + len(block) + tailSize
 
 // ---------------------------------------------------------------- membership changes are always applied (C07)
@@ -708,3 +713,38 @@ package rsm
 //@ requires s.index < MaxUint64 && (forall i int :: 0 <= i && i < len(input) ==> input[i].Index < MaxUint64)
 //@ loop 1 invariant s.index < MaxUint64
 //@ loop 2 invariant s.index < MaxUint64
+
+// ---------------------------------------------------------------- encoded entry payloads (C13)
+// From the property: entry payload encoding with or without compression returns the original
+// payload. Proved for the uncompressed form, byte for byte: the encoding is a zero header byte
+// followed by exactly the payload -- whatever scratch buffer the caller passed (too short, exact, or
+// with spare capacity) -- and decoding a zero-header command returns the bytes after the header.
+// The Snappy form goes through the compression library (its two directions are assumed inverse).
+//@ func getEncodedHeader [C13]
+//@ ensures version == 0 && cf == 0 && !session ==> result == 0
+//@ func getEncoded [C13]
+//@ noframe
+//@ requires len(cmd) < 4611686018427387904 && (len(dst) > 0 ==> disjoint(cmd, dst))
+//@ ensures ct == dio.NoCompression ==> len(result) == len(cmd) + 1 && result[0] == 0 && (forall i int :: 0 <= i && i < len(cmd) ==> result[i + 1] == cmd[i])
+//@ func parseEncodedHeader [C13]
+//@ nobounds
+//@ ensures cmd[0] == 0 ==> result0 == 0 && result1 == 0 && !result2
+//@ func getDecodedPayload [C13]
+//@ noframe
+//@ nobounds
+//@ ensures len(cmd) >= 1 && old(cmd[0]) == 0 ==> result1 == nil && len(result0) == len(cmd) - 1 && ptr(result0) == ptr(cmd) + 1
+
+// ---------------------------------------------------------------- what a session image contains (C05 C08)
+// From the property: a replica restored from a snapshot must ignore exactly the duplicates the
+// others ignore, so the image of a session carries its client id, its acknowledged watermark
+// (RespondedUpTo) and its whole response history. gMarshalled: the object handed to json.Marshal.
+//@ ghost var gMarshalled int
+//@ extern encoding/json Marshal
+//@ ghostset gMarshalled := obj(v)
+//@ extern io (w Writer) Write
+//@ func (s *Session) save [C05 C08]
+//@ noframe
+//@ nobounds
+//@ modifies gMarshalled
+//@ ensures as(*Session, gMarshalled).ClientID == s.ClientID && as(*Session, gMarshalled).RespondedUpTo == s.RespondedUpTo
+//@ ensures forall k RaftSeriesID :: (k in as(*Session, gMarshalled).History) == (k in s.History)
